@@ -129,6 +129,15 @@ def populated_prefix():
         T(dict(type='pnft.Mint', denom='n1', id='i1', actor='a1', name='x', desc='', uri='u', hash='', data=''), 'a1'),
         T(dict(type='pnft.Mint', denom='n1', id='i2', actor='a1', name='y', desc='', uri='u', hash='', data=''), 'a1'),
         T(dict(type='pnft.Transfer', denom='n1', id='i2', actor='a1', to='a2'), 'a1'),
+        # reachable shapes that are easy to forget: a topic whose only writer was removed after it wrote (records, no writers), a blank topic
+        # (no description, writers or records: a zero-byte store value), a token burned again (supply counter back to zero)
+        T(dict(type='aol.CreateTopic', owner='a1', topic='t2', desc='x'), 'a1'),
+        T(dict(type='aol.AddWriter', owner='a1', topic='t2', writer='a2', mon='', desc=''), 'a1'),
+        T(dict(type='aol.AddRecord', owner='a1', topic='t2', writer='a2', key='k1', val='v1', feePayer='none'), 'a2'),
+        T(dict(type='aol.DeleteWriter', owner='a1', topic='t2', writer='a2'), 'a1'),
+        T(dict(type='aol.CreateTopic', owner='a2', topic='tc', desc=''), 'a2'),
+        T(dict(type='pnft.Mint', denom='n2', id='i1', actor='a2', name='x', desc='', uri='u', hash='', data=''), 'a2'),
+        T(dict(type='pnft.Burn', denom='n2', id='i1', actor='a2'), 'a2'),
     ]
 
 
